@@ -39,10 +39,10 @@ def decorate(prog, rng, idx):
             t.impl_disable = None
             if bits & 2 and rng.random() < 0.7:
                 # a full replacement is only sensible where it names one symbol: the destructor of an opaque
-                t.abi_pat = rng.choice(["ty_{0}", "{0}T"] + (["%s_free" % t.name.lower()] if t.kind == "opaque" else []))
+                t.abi_pat = rng.choice(["ty_{0}", "{0}T", "{0}"] + (["%s_free" % t.name.lower()] if t.kind == "opaque" else []))
                 t.attrs.append('#[diplomat::abi_rename = "%s"]' % t.abi_pat)
             if bits & 4 and t.methods and rng.random() < 0.7:
-                t.impl_pat = rng.choice(["impl_{0}", "{0}_i"])
+                t.impl_pat = rng.choice(["impl_{0}", "{0}_i", "{0}"])        # a bare "{0}" cancels an outer pattern
                 t.impl_attrs = getattr(t, "impl_attrs", []) + ['#[diplomat::abi_rename = "%s"]' % t.impl_pat]
             if t.methods and rng.random() < 0.2:
                 t.impl_disable = rng.choice(CONDS)
@@ -53,7 +53,7 @@ def decorate(prog, rng, idx):
                 m.abi_pat = None
                 m.disable = None
                 if bits & 8 and rng.random() < 0.5:
-                    m.abi_pat = rng.choice(["m_{0}", "{0}_m", "full_%s_%s_%d" % (t.name, m.name, n)])
+                    m.abi_pat = rng.choice(["m_{0}", "{0}_m", "{0}", "full_%s_%s_%d" % (t.name, m.name, n)])
                     m.attrs.append('#[diplomat::abi_rename = "%s"]' % m.abi_pat)
                     n += 1
                 if m.name != "make" and t.impl_disable is None and rng.random() < 0.2:
